@@ -133,7 +133,50 @@ fn wd(r: &mut Rng) -> u64 {
     r.below(7)
 }
 
+/// century indexes across the whole i16 range, dense around the powers of two and the ends (a century count obtained with a
+/// rounded reciprocal, a shift or a narrow cast is wrong only there) plus a few random ones
+pub fn century_lattice(r: &mut Rng) -> Vec<i128> {
+    let mut cs: Vec<i128> = vec![0, 1, -1, 2, -2, 32767, 32766, -32767, -32768];
+    for k in 1..=15u32 {
+        for j in 0..=3i128 {
+            cs.push((1i128 << k) - j);
+            cs.push(-((1i128 << k) - j));
+        }
+    }
+    for _ in 0..30 {
+        cs.push(r.range_i64(-32768, 32767) as i128);
+    }
+    cs.retain(|c| *c >= -32768 && *c <= 32767);
+    cs.sort();
+    cs.dedup();
+    cs
+}
+
 pub fn inputs_c04(r: &mut Rng, n: usize, _tier: &str, out: &mut dyn Write) {
+    // result-in-the-first/last-second-of-a-century block for every stepping entry point, over the century lattice (seeded
+    // change C04-8: `Epoch + f64` whole seconds through `floor(total_s * (1 / seconds per century))`, a century early in the
+    // first second of the negative centuries just below a power of two, and left un-normalised)
+    if n >= 5000 {
+        const ALL9: [&str; 9] = ["TAI", "TT", "UTC", "GPST", "GST", "BDT", "QZSST", "ET", "TDB"];
+        for (i, c) in century_lattice(r).iter().enumerate() {
+            let ts = ALL9[i % 9];
+            let s: i128 = *r.pick(&[1i128, 2, 59, 3600, 86400]);
+            let sub: i128 = *r.pick(&[0i128, 1, 499_999_999, 999_999_999]);
+            for land in [c * NPC + sub, c * NPC - SEC + sub] {
+                let e = land - s * SEC;
+                if e < DMIN || land > DMAX {
+                    continue;
+                }
+                writeln!(out, "eaddf {}:{} {}", dstr(e), ts, f2s(s as f64)).unwrap();
+                writeln!(out, "eaddf {}:{} {}", dstr(land + s * SEC), ts, f2s(-(s as f64))).unwrap();
+                match i % 3 {
+                    0 => writeln!(out, "eadd {}:{} {}", dstr(e), ts, dstr(s * SEC)).unwrap(),
+                    1 => writeln!(out, "eaddassign {}:{} {}", dstr(e), ts, dstr(s * SEC)).unwrap(),
+                    _ => writeln!(out, "esub {}:{} {}", dstr(land + s * SEC), ts, dstr(s * SEC)).unwrap(),
+                }
+            }
+        }
+    }
     for _ in 0..n {
         // one case in six on an epoch HELD in ET or TDB (every op but the cross-scale difference, which has its own op ediff9)
         let dyn_held = r.chance(1, 6);
@@ -382,6 +425,14 @@ pub fn inputs_c06(r: &mut Rng, n: usize, tier: &str, out: &mut dyn Write) {
                 let ta = (t + d + s) * SEC + sub;
                 writeln!(out, "tots {}:TAI UTC", dstr(ta)).unwrap();
                 emitted += 3;
+                if sub == 0 || sub == 500_000_000 {
+                    // the duration-valued accessors that cross UTC <-> TAI, on the same instants (seeded change C06-12: a fast
+                    // path of to_duration_since_j1900 adding leap_seconds_iers() of the UTC epoch itself, one second early)
+                    writeln!(out, "acc to_duration_since_j1900 {}:UTC", dstr(u)).unwrap();
+                    writeln!(out, "acc to_tai_duration {}:UTC", dstr(u)).unwrap();
+                    writeln!(out, "acc to_utc_duration {}:TAI", dstr(ta)).unwrap();
+                    emitted += 3;
+                }
             }
         }
     }
@@ -791,6 +842,18 @@ pub fn inputs_c17(r: &mut Rng, n: usize, _tier: &str, out: &mut dyn Write) {
             }
             0 | 1 | 2 => writeln!(out, "acc17 {} {}", *r.pick(&ACCD), es).unwrap(),
             3 | 4 | 5 | 6 => writeln!(out, "accf {} {}", *r.pick(&ACCF), es).unwrap(),
+            7 if r.chance(1, 3) => {
+                // the same constructors reached through the TEXT forms `MJD x SCALE` / `JD x SCALE` (Epoch::from_str) against
+                // the direct constructor: every magnitude, and values around zero incl. (-1, 0) (seeded change C17-10)
+                let k = *r.pick(&["TAI", "UTC", "GPST", "QZSST", "GST", "BDT", "TT"]);
+                let x = match r.below(4) {
+                    0 => -((r.below(1 << 53) as f64) / (1u64 << 53) as f64),
+                    1 => (r.range_i64(-2000, 2000) as f64) / *r.pick(&[1000.0, 4.0, 3.0, 7.0]),
+                    _ => f_days(r),
+                };
+                let jd = r.chance(1, 2);
+                writeln!(out, "jdtext {} {} {}", if jd { "JD" } else { "MJD" }, k, f2s(if jd && x.abs() > 3.0 { x + 2_400_000.5 } else { x })).unwrap()
+            }
             7 => {
                 let k = *r.pick(&["TAI", "UTC", "GPST", "QZSST", "GST", "BDT", "TT", "ET", "TDB"]);
                 writeln!(out, "from_mjd {} {}", k, f2s(f_days(r))).unwrap()
@@ -1569,6 +1632,17 @@ pub fn exec(op: &str, a: &[&str]) -> Option<String> {
             Some(format!("ok {} {}", f2s(f), d2s(d)))
         }
         "accf" => accf_call(a[0], &s2e(a[1])).map(|v| format!("ok {}", f2s(v))),
+        "jdtext" => {
+            // (Epoch::from_str of the text form | err, the direct constructor on the same double)
+            use core::str::FromStr;
+            let (x, ts) = (s2f(a[2]), s2ts(a[1]));
+            let direct = if a[0] == "JD" { Epoch::from_jde_in_time_scale(x, ts) } else { Epoch::from_mjd_in_time_scale(x, ts) };
+            let text = format!("{} {:?} {}", a[0], x, ts2s(ts));
+            Some(match Epoch::from_str(&text) {
+                Ok(e) => format!("ok {} {}", e2s(e), e2s(direct)),
+                Err(_) => format!("ok err {}", e2s(direct)),
+            })
+        }
         "from_mjd" => oke(Epoch::from_mjd_in_time_scale(s2f(a[1]), s2ts(a[0]))),
         "from_jde" => oke(Epoch::from_jde_in_time_scale(s2f(a[1]), s2ts(a[0]))),
         "from_unix_s" => oke(Epoch::from_unix_seconds(s2f(a[0]))),
